@@ -91,13 +91,13 @@ type AV struct {
 	Set  []string // KNum: sorted canonical constants (constant.ExactString); nil = unknown
 	Base SymID    // KNum linear form Base+Off (Base==0: none)
 	Off  int64
-	Sym  SymID   // reference kinds: identity carrying nil-ness / shape facts (0 = none: Nil field is authoritative)
-	Nil  nilness // reference kinds without Sym
-	Obj  ObjID   // KPtr: target object (0 = not materialised); KSlice/KMap: element cell object
-	Path string  // KPtr: path inside Obj; KSlice/KMap: element cell path
-	Tup  []AV    // KTuple
-	Flds map[string]AV // KStruct snapshot: path -> value
-	Fn   *ssa.Function // KFunc
+	Sym  SymID           // reference kinds: identity carrying nil-ness / shape facts (0 = none: Nil field is authoritative)
+	Nil  nilness         // reference kinds without Sym
+	Obj  ObjID           // KPtr: target object (0 = not materialised); KSlice/KMap: element cell object
+	Path string          // KPtr: path inside Obj; KSlice/KMap: element cell path
+	Tup  []AV            // KTuple
+	Flds map[string]AV   // KStruct snapshot: path -> value
+	Fn   *ssa.Function   // KFunc
 	Fns  []*ssa.Function // KFunc: one of these (an element of a table of functions); Fn == nil
 	Bind []AV
 	Src  *cellKey // where a scalar was loaded from (for refinement), nil if none
@@ -105,9 +105,9 @@ type AV struct {
 	In   *AV      // KIface: wrapped dynamic value (may be nil)
 }
 
-func top() AV            { return AV{K: KTop} }
-func boolAV(t tri) AV    { return AV{K: KBool, B: t} }
-func numTop() AV         { return AV{K: KNum} }
+func top() AV         { return AV{K: KTop} }
+func boolAV(t tri) AV { return AV{K: KBool, B: t} }
+func numTop() AV      { return AV{K: KNum} }
 func constAV(c constant.Value) AV {
 	if c == nil {
 		return AV{K: KTop}
